@@ -12,7 +12,7 @@ from vfw.core import Sub, Violation
 PROP = "C17"
 RULE = ("two discs: radii log-uniform in [1e-3, 1e3] or decimal multiples of 0.1 (equal radii in a quarter of the cases), "
         "first centre arbitrary / decimal / origin, second centre placed at a target distance (r1+r2, |r1-r2|, 0, inside, "
-        "crossing, far, random) along an axis, a 3-4-5 direction or a random angle, then moved by -4..+4 ulps with "
+        "crossing, far, random, or tiny: 1e-5 ... 1e-320) along an axis, a 3-4-5 direction or a random angle, then moved by -4..+4 ulps with "
         "math.nextafter. Oracle: 50-digit mpmath lens area of the float inputs. non-trivial = centre distance within 8 ulps "
         "of r1+r2 or |r1-r2|, or r1 == r2; distinct = distinct (c1, r1, c2, r2).")
 ASSUMPTIONS = [
@@ -44,7 +44,9 @@ def run_discs(c):
     x1, y1, r1, x2, y2, r2 = (float(v) for v in c["d"])
     R = max(r1, r2)
     res = []
-    for args in ((Point(x1, y1), r1, Point(x2, y2), r2), (Point(x2, y2), r2, Point(x1, y1), r1)):
+    # the caller's centre objects are used for every call (as total_intersection_area does with the modules' centres)
+    p1, p2 = Point(x1, y1), Point(x2, y2)
+    for args in ((p1, r1, p2, r2), (p2, r2, p1, r1), (p1, r1, p2, r2)):
         try:
             a = circle_circle_intersection_area(*args)
         except Exception as e:
@@ -53,6 +55,13 @@ def run_discs(c):
         if not isinstance(a, (int, float)) or not math.isfinite(a):
             raise Violation("circle_circle_intersection_area%r returned %r" % (tuple(c["d"]), a), "not-finite")
         res.append(float(a))
+        if (p1.x, p1.y, p2.x, p2.y) != (x1, y1, x2, y2):
+            raise Violation("circle_circle_intersection_area%r altered the centres it was given: they are now (%r, %r) and (%r, %r)" % (
+                tuple(c["d"]), p1.x, p1.y, p2.x, p2.y), "centres-altered")
+    if res[2] != res[0]:
+        raise Violation("the same call on the same centre objects gives %r the first time and %r the second time (%r)" % (res[0], res[2], tuple(c["d"])),
+                        "not-repeatable")
+    res = res[:2]
     a, b = res
     what = "c1=(%r,%r) r1=%r c2=(%r,%r) r2=%r" % (x1, y1, r1, x2, y2, r2)
     if abs(a - b) > 1e-6 * R * R:
@@ -76,6 +85,8 @@ def run_discs(c):
         cls.append("equal-radii")
     if d > 0 and abs(d * d - abs(r1 * r1 - r2 * r2)) <= 4 * math.ulp(d * d):
         cls.append("chord-through-centre")
+    if 0 < d and d * d < 1e-300:
+        cls.append("distance-squared-underflows")
     if d == 0:
         cls.append("concentric")
     elif 0 < ref < small:
@@ -107,7 +118,7 @@ def discs_s(draw):
     else:
         x1 = draw(st.floats(-1e4, 1e4, allow_nan=False))
         y1 = draw(st.floats(-1e4, 1e4, allow_nan=False))
-    kind = draw(st.sampled_from(["ext", "ext", "int", "int", "zero", "inside", "cross", "far", "rand", "pyth"]))
+    kind = draw(st.sampled_from(["ext", "ext", "int", "int", "zero", "inside", "cross", "far", "rand", "pyth", "tiny"]))
     if kind == "pyth":
         # the common chord passes exactly through one of the centres: d^2 == |r1^2 - r2^2| in floating point
         a, b, c = draw(st.sampled_from([(5, 3, 4), (5, 4, 3), (13, 12, 5), (13, 5, 12), (17, 8, 15), (25, 7, 24), (10, 6, 8)]))
@@ -129,6 +140,14 @@ def discs_s(draw):
         D = (r1 + r2) * draw(st.floats(1, 50, allow_nan=False))
     elif kind == "pyth":
         D = c * sc
+    elif kind == "tiny":
+        # almost coincident centres: distances whose square is far below the radii's ulp, down to the subnormal range
+        if draw(st.booleans()):
+            D = 10.0 ** -draw(st.floats(5, 320, allow_nan=False))
+        else:
+            D = math.sqrt(5e-324 * draw(_i(1, 1 << draw(_i(1, 40)))))  # the square of the distance is a subnormal number (or just above)
+        if draw(st.booleans()):
+            r2 = r1
     else:
         D = draw(st.floats(0, 2000, allow_nan=False))
     dk = draw(_i(0, 4))
@@ -154,5 +173,5 @@ def discs_s(draw):
 
 
 def subchecks():
-    return [Sub("discs", run_discs, strategy=discs_s(), n_quick=60000, n_thorough=1500000,
-                required=("ext-tangent", "int-tangent", "equal-radii", "concentric", "crossing", "apart", "nested", "chord-through-centre"))]
+    return [Sub("discs", run_discs, strategy=discs_s(), n_quick=60000, n_thorough=1500000, fuzz_thorough=30000,
+                required=("ext-tangent", "int-tangent", "equal-radii", "concentric", "crossing", "apart", "nested", "chord-through-centre", "distance-squared-underflows"))]
